@@ -13,6 +13,8 @@ from typing import (
     Sequence,
     Tuple,
     Union,
+    get_args,
+    get_origin,
     get_type_hints,
 )
 
@@ -297,8 +299,11 @@ def _parse_signature_from_type_hints(
 
 def _maybe_multiple_return_vals(return_hint):
     """if ufunc returns multiple values (each of which might be annotated) we must extract from Tuple first"""
+    # (typing.Tuple[...] and the builtin generic tuple[...] both have the origin `tuple`)
     return_hints = (
-        list(return_hint.__args__) if return_hint._name == "Tuple" else [return_hint]
+        list(get_args(return_hint))
+        if get_origin(return_hint) is tuple
+        else [return_hint]
     )
     return return_hints
 
